@@ -186,7 +186,9 @@ def mutations(base, other, rnd, n_havoc, cmd_desc=None):
         reg = cmd_desc["reg"]
         second = cmd_desc["value"] if cmd_desc["kind"] == "write" else cmd_desc["count"]
         for r2, v2 in ((reg ^ 1, second), ((reg + 1) & 0xFFFF, second), (0 if reg else 5, second), (reg, second + 1), (reg, 5 if second != 5 else 6),
-                       (reg, 0 if second else 1), (reg, -second if second not in (0, -32768) else 7), (rnd.randrange(65536), rnd.randrange(1, 100))):
+                       (reg, 0 if second else 1), (reg, -second if second not in (0, -32768) else 7), (rnd.randrange(65536), rnd.randrange(1, 100)),
+                       # the neighbours across the ends of the 16-bit range (32767 <-> -32768, -1 <-> 0) and the same bits with the other sign
+                       (reg, (second + 1 + 32768) % 65536 - 32768), (reg, (second - 1 + 32768) % 65536 - 32768), (reg, (second + 65536) % 65536 - 32768 if second >= 0 else second + 32768)):
             if (r2, v2) == (reg, second) or not -32768 <= v2 <= 32767:
                 continue
             d2 = dict(cmd_desc, reg=r2)
